@@ -1,13 +1,13 @@
-(* Obligation C20/normal_params_mv_inverse.  Statement as printed by Coq from Inferno.C20.DistProofs; proof by reference.
+(* Obligation C20/normal_params_mv_inverse.  Statement as printed by Coq from Inferno.C20.DistNormal; proof by reference.
    This file contains nothing else, so the statement cannot be weakened quietly. *)
 From Coq Require Import Reals List ZArith Bool.
 From Coquelicot Require Import Coquelicot.
 From Flocq Require Import Core.Raux.
-From Inferno Require Import Base.Num Base.NumR C20.Model C20.Spec C20.DistProofs.
+From Inferno Require Import Base.Num Base.NumR Gen.Distributions C20.Model C20.Spec C20.DistNormal.
 Import ListNotations.
 Open Scope R_scope.
 Theorem normal_params_mv_inverse : forall (loc : T RN) (scale : R),
   0 <= scale ->
   normal_params_mv RN (normal_mean RN loc) (normal_variance RN scale) = (loc, scale).
-Proof. exact (@Inferno.C20.DistProofs.normal_params_mv_inverse). Qed.
+Proof. exact (@Inferno.C20.DistNormal.normal_params_mv_inverse). Qed.
 Print Assumptions normal_params_mv_inverse.
